@@ -4,6 +4,7 @@ package dns_naming
 
 import (
 	"fmt"
+	"time"
 
 	"github.com/irai/packet"
 )
@@ -32,4 +33,15 @@ func (h *DNSHandler) VerifMDNSCache() []string {
 		out = append(out, s)
 	}
 	return out
+}
+
+// VerifExpireMDNSCache lets the five minutes of the mDNS response cache pass: every cached entry is
+// marked as expired (the entries stay in the map until they are looked up again, as with real time).
+func (h *DNSHandler) VerifExpireMDNSCache() {
+	h.mutex.Lock()
+	defer h.mutex.Unlock()
+	for k, c := range h.mdnsCache {
+		c.expiry = time.Time{}
+		h.mdnsCache[k] = c
+	}
 }
